@@ -124,7 +124,11 @@ def oracle(rec, A):
             for k in ks[1:]:
                 lhs = span(offs[k]) * h2f(flushed[j][1])
                 rhs = span(offs[j]) * h2f(flushed[k][1])
-                if abs(lhs - rhs) > 2e-5 * max(abs(lhs), abs(rhs), 1e-30):
+                # each entry of a displacement field is a binary32 number that went through a handful of roundings: a span
+                # is known to a few ulps of the LARGEST entry, which matters when an amplitude is tiny (strong noise)
+                ulps = lambda o: 16 * 2.0 ** -24 * max(abs(v) for v in o)
+                slack = ulps(offs[k]) * abs(h2f(flushed[j][1])) + ulps(offs[j]) * abs(h2f(flushed[k][1]))
+                if abs(lhs - rhs) > 2e-5 * max(abs(lhs), abs(rhs), 1e-30) + slack:
                     return ("kicks %d and %d are recorded with the same phase and amplitudes %r, %r, but the applied "
                             "displacement fields have slope ratio %r" % (j, k, h2f(flushed[j][1]), h2f(flushed[k][1]),
                                                                          span(offs[k]) / span(offs[j]) if span(offs[j]) else None))
@@ -133,7 +137,9 @@ def oracle(rec, A):
             so = [h2f(v) for v in st[0]["off"]]
             for k, (ph, am) in enumerate(flushed):
                 want = span(so) * h2f(am)
-                if abs(span(offs[k]) - want) > 2e-5 * max(abs(want), 1e-30):
+                u = 16 * 2.0 ** -24
+                slack = u * max(abs(v) for v in offs[k]) + u * max(abs(v) for v in so) * abs(h2f(am))
+                if abs(span(offs[k]) - want) > 2e-5 * max(abs(want), 1e-30) + slack:
                     return ("kick %d is recorded with the static phase and amplitude %r, but the applied displacement "
                             "field is %r times the static one" % (k, h2f(am), span(offs[k]) / span(so) if span(so) else None))
     if rec["mode"] == "mod" and flushed:
